@@ -272,6 +272,26 @@ def check(rep, F, tier, replay=None):
             if not ok:
                 rep.violation("IDX", "%s|add-without-take" % FNS[k], "%s adds an offered UTxO whose index is not taken out of the available collection in the same iteration: it can be selected again" % FNS[k], {"loc": facts.loc_str(t[0], fn_)})
 
+    # ---- STORE: a registration that reports success has stored the input ----------------------------------------------------
+    rep.rule("STORE", "every registration function of TxInputsBuilder that stores inputs (calls push_input) does so on every path to its return: add_regular_utxo cannot report success for a UTxO the builder does not hold (selection would count its value without having it)")
+    n_store = 0
+    for fid_, fn_ in F.fns.items():
+        if "/tests/" in fn_["file"] or "::{closure" in fid_:
+            continue
+        cs_ = [c for c in F.calls(fid_) if (c.to or "").endswith("TxInputsBuilder::push_input")]
+        if not cs_:
+            continue
+        n_store += 1
+        rep.inst("STORE")
+        if fn_["locals"][0].startswith("std::result::Result"):
+            exits = [b for b, k, l in mp.success_stores(F, fid_)]
+        else:
+            exits = [bi for bi, bb in enumerate(fn_["bbs"]) if bb["t"][1] == "ret" and not bb["c"]]
+        bad = [r for r in exits if not any(mp.dominated_by(fn_, r, c.bb) for c in cs_)]
+        if bad:
+            rep.violation("STORE", "%s" % F.key(fid_), "%s can return normally without having called push_input: the caller (add_regular_utxo, hence coin selection) takes the UTxO as added while the builder does not hold it" % F.key(fid_), {})
+    rep.floor("input registration functions that store through push_input", 3, n_store)
+
     # ---- MARGINAL: an offered UTxO is priced with the registration that commits it ------------------------------------------------
     rep.rule("MARGINAL", "the marginal fee added to the target for a selected UTxO (fee_for_input) prices the same registration that add_regular_utxo commits: both hand add_regular_input_extended the input's reference-script size (min_fee charges the tiered reference-script fee for it)")
     price = F.by_key("TxInputsBuilder::add_regular_input")
